@@ -601,6 +601,27 @@ func (a *fnAnalysis) loopCap(li *loopInfo, st *rstate) int {
 				v = bo.X
 			}
 		}
+		// len(s) of a loop-carried slice that grows by append counts like a counter
+		if call, ok := v.(*ssa.Call); ok {
+			if b, ok := call.Common().Value.(*ssa.Builtin); ok && b.Name() == "len" {
+				if sp, ok := call.Common().Args[0].(*ssa.Phi); ok && sp.Block() == li.header {
+					grows, initConst := false, false
+					for i, e := range sp.Edges {
+						if ap, ok := e.(*ssa.Call); ok {
+							if bb, ok := ap.Common().Value.(*ssa.Builtin); ok && bb.Name() == "append" && ap.Common().Args[0] == ssa.Value(sp) {
+								grows = true
+							}
+						}
+						if !li.body[li.header.Preds[i]] {
+							_, initConst = a.lenOf(st, e).isConst()
+						}
+					}
+					if grows && initConst {
+						return true
+					}
+				}
+			}
+		}
 		phi, ok := v.(*ssa.Phi)
 		if !ok || phi.Block() != li.header {
 			return false
@@ -858,6 +879,9 @@ func (e *rangeEngine) analyse(fn *ssa.Function, forceWiden bool) *fnRes {
 								bs[bit] = nfl[eb]
 							}
 							nfl = string(bs)
+						}
+						if _, isSlice := phi.Type().Underlying().(*types.Slice); isSlice {
+							ns.iv[phi] = a.lenOf(es, edge)
 						}
 						if isIntType(phi.Type()) {
 							v := a.get(es, edge)
@@ -1494,6 +1518,20 @@ func (a *fnAnalysis) call(st *rstate, x *ssa.Call) {
 				st.iv[x] = topVal()
 			}
 		}
+		if b.Name() == "append" && len(common.Args) == 2 {
+			// the length of the result: that of the first argument plus the number of appended elements
+			k := rangeVal(0, pinf)
+			if sl, ok := common.Args[1].(*ssa.Slice); ok && sl.Low == nil && sl.High == nil {
+				if _, n, ok := localArray(sl.X); ok {
+					k = constVal(n)
+				} else if al, ok := sl.X.(*ssa.Alloc); ok {
+					if at, ok := al.Type().Underlying().(*types.Pointer).Elem().Underlying().(*types.Array); ok {
+						k = constVal(at.Len())
+					}
+				}
+			}
+			st.iv[x] = addVal(a.lenOf(st, common.Args[0]), k)
+		}
 		return
 	}
 	callee := common.StaticCallee()
@@ -1678,6 +1716,11 @@ func floorF(x float64) float64 {
 }
 
 func (a *fnAnalysis) lenOf(st *rstate, v ssa.Value) aval {
+	if _, isSlice := v.Type().Underlying().(*types.Slice); isSlice {
+		if l, ok := st.iv[v]; ok {
+			return l
+		}
+	}
 	if name, ok := a.tableOf(v); ok {
 		if n, ok := a.e.tabLen[name]; ok {
 			return constVal(n)
